@@ -233,8 +233,7 @@ struct Case {
     queries: Vec<Query>,
     /// position (number of ops replayed before) of the "middle" index creation
     ix_mid: usize,
-    /// position of the "middle" compaction; None = this history is not eligible (it deletes
-    /// relationships that would already be frozen — the tier defect #27 is C06's)
+    /// position of the "middle" compaction (`None` only in old corpus lines: no middle compaction)
     cp_mid: Option<usize>,
     /// the partial index set
     partial: Vec<(u8, u8)>,
@@ -478,13 +477,18 @@ impl Query {
         let pattern = match self.hop {
             None => n,
             Some((ty, out, tl)) => {
-                let m = format!("(m:{})", LABELS[tl as usize]);
-                let t = TYPES[ty as usize];
+                // tl = 0: unlabelled target; ty = 0: untyped relationship pattern
+                let m = if tl == 0 { "(m)".to_string() } else { format!("(m:{})", LABELS[tl as usize]) };
+                let (fwd, bwd) = if ty == 0 {
+                    ("-->".to_string(), "<--".to_string())
+                } else {
+                    (format!("-[:{}]->", TYPES[ty as usize]), format!("<-[:{}]-", TYPES[ty as usize]))
+                };
                 match (out, self.form == "flip" || self.form == "rev") {
-                    (true, false) => format!("{}-[:{}]->{}", n, t, m),
-                    (true, true) => format!("{}<-[:{}]-{}", m, t, n),
-                    (false, false) => format!("{}<-[:{}]-{}", n, t, m),
-                    (false, true) => format!("{}-[:{}]->{}", m, t, n),
+                    (true, false) => format!("{}{}{}", n, fwd, m),
+                    (true, true) => format!("{}{}{}", m, bwd, n),
+                    (false, false) => format!("{}{}{}", n, bwd, m),
+                    (false, true) => format!("{}{}{}", m, fwd, n),
                 }
             }
         };
@@ -532,7 +536,12 @@ impl Query {
                 }
             ),
         };
-        format!("{}{}{}", p, if self.hop.is_some() { "+hop" } else { "" }, if self.form == "with" { "+with" } else { "" })
+        let hop = match self.hop {
+            None => "",
+            Some((0, _, _)) => "+hop-untyped",
+            Some(_) => "+hop",
+        };
+        format!("{}{}{}", p, hop, if self.form == "with" { "+with" } else { "" })
     }
 }
 
@@ -772,6 +781,101 @@ fn value_pool() -> Vec<Val> {
     ]
 }
 
+/// endpoints of a new relationship: often the pair of an existing one (parallel / multi-type
+/// relationships), sometimes a self-loop, otherwise any two live nodes
+fn pick_pair(rng: &mut Rng, live: &BTreeMap<u64, Vec<u8>>, edges: &BTreeMap<u64, (u64, u64, usize)>) -> (u64, u64) {
+    let any = |rng: &mut Rng| *live.keys().nth(rng.usize(live.len())).unwrap();
+    let r = rng.usize(10);
+    if r < 4 && !edges.is_empty() {
+        let (a, b, _) = *edges.values().nth(rng.usize(edges.len())).unwrap();
+        if live.contains_key(&a) && live.contains_key(&b) {
+            return (a, b);
+        }
+    }
+    if r == 9 {
+        let a = any(rng);
+        return (a, a);
+    }
+    (any(rng), any(rng))
+}
+
+/// Relationship-heavy histories for tier invariance: a few nodes, groups of parallel and
+/// multi-type relationships between the same pair, self-loops; a compaction; then relationship
+/// deletes and node DETACH DELETEs of what is now frozen, interleaved with creates that reuse
+/// the freed relationship / node ids; read by one-hop queries in both directions, typed and
+/// untyped, to labelled and unlabelled targets.
+fn gen_edge_case(rng: &mut Rng) -> Case {
+    let pool = value_pool();
+    let mut ops: Vec<HOp> = vec![];
+    let mut live: BTreeMap<u64, Vec<u8>> = BTreeMap::new();
+    let mut edges: BTreeMap<u64, (u64, u64, usize)> = BTreeMap::new();
+    let mut next_h = 1u64;
+    let mut next_e = 1u64;
+    let mut new_node = |rng: &mut Rng, ops: &mut Vec<HOp>, live: &mut BTreeMap<u64, Vec<u8>>| -> u64 {
+        let labels = vec![if rng.chance(3, 4) { 1u8 } else { 2u8 }];
+        let props = if rng.chance(1, 2) { vec![(1u8, pool[rng.usize(pool.len())].clone())] } else { vec![] };
+        let h = next_h;
+        next_h += 1;
+        ops.push(HOp::Create { h, labels: labels.clone(), props });
+        live.insert(h, labels);
+        h
+    };
+    for _ in 0..(3 + rng.usize(3)) {
+        new_node(rng, &mut ops, &mut live);
+    }
+    let mut new_edge = |rng: &mut Rng, ops: &mut Vec<HOp>, live: &BTreeMap<u64, Vec<u8>>, edges: &mut BTreeMap<u64, (u64, u64, usize)>| {
+        let (a, b) = pick_pair(rng, live, edges);
+        let i = ops.len();
+        ops.push(HOp::CreateEdge { e: next_e, src: a, dst: b, ty: 1 + rng.usize(2) as u8 });
+        edges.insert(next_e, (a, b, i));
+        next_e += 1;
+    };
+    for _ in 0..(4 + rng.usize(7)) {
+        new_edge(rng, &mut ops, &live, &mut edges);
+    }
+    // usually compact right after the relationships exist, sometimes anywhere
+    let cp_after_build = ops.len();
+    let steps = 4 + rng.usize(7);
+    for _ in 0..steps {
+        let r = rng.usize(100);
+        if r < 40 && !edges.is_empty() {
+            let e = *edges.keys().nth(rng.usize(edges.len())).unwrap();
+            edges.remove(&e);
+            ops.push(HOp::DeleteEdge { e });
+        } else if r < 52 && live.len() > 2 {
+            let h = *live.keys().nth(rng.usize(live.len())).unwrap();
+            live.remove(&h);
+            edges.retain(|_, (a, b, _)| *a != h && *b != h);
+            ops.push(HOp::Delete { h });
+        } else if r < 62 {
+            new_node(rng, &mut ops, &mut live);
+            new_edge(rng, &mut ops, &live, &mut edges);
+        } else {
+            new_edge(rng, &mut ops, &live, &mut edges);
+        }
+    }
+    // a create after the last delete, so that a freed id is in use again when the reads run
+    new_edge(rng, &mut ops, &live, &mut edges);
+    let cp = if rng.chance(7, 10) { cp_after_build } else { rng.usize(ops.len() + 1) };
+
+    let mut queries = vec![];
+    for _ in 0..6 {
+        let label = if rng.chance(3, 4) { 1 } else { 2 };
+        let ty = [0u8, 0, 1, 2][rng.usize(4)];
+        let tl = [0u8, 0, 1, 2][rng.usize(4)];
+        let preds = if rng.chance(1, 5) {
+            vec![Pred::Cmp { key: 1, op: ["eq", "ge", "lt"][rng.usize(3)], v: [Val::Int(1), Val::Flt(2), Val::Str(b"a".to_vec())][rng.usize(3)].clone() }]
+        } else {
+            vec![]
+        };
+        let form = ["plain", "plain", "rev", "with", "flip"][rng.usize(5)];
+        queries.push(Query { label, preds, ret: Some(0), hop: Some((ty, rng.chance(1, 2), tl)), form, raw: None });
+    }
+    queries.push(Query { label: 1, preds: vec![], ret: None, hop: None, form: "plain", raw: None });
+    let partial: Vec<(u8, u8)> = ALL_PAIRS.iter().filter(|_| rng.chance(1, 2)).copied().collect();
+    Case { ix_mid: rng.usize(ops.len() + 1), cp_mid: Some(cp), ops, queries, partial }
+}
+
 fn gen_case(rng: &mut Rng, big: bool) -> Case {
     let pool = value_pool();
     let n_ops = if big { 0 } else { 4 + rng.usize(14) };
@@ -781,8 +885,9 @@ fn gen_case(rng: &mut Rng, big: bool) -> Case {
     let mut edges: BTreeMap<u64, (u64, u64, usize)> = BTreeMap::new();
     let mut next_h = 1u64;
     let mut next_e = 1u64;
-    let allow_mid = rng.chance(1, 2);
-    let cp_at = if allow_mid { Some(rng.usize(n_ops + 1)) } else { None };
+    // every history is eligible for a compaction in the middle: relationships (and nodes
+    // with relationships) are deleted after it, and later creates reuse the freed ids
+    let cp_at = Some(rng.usize(n_ops + 1));
     let pick_val = |rng: &mut Rng| pool[rng.usize(pool.len())].clone();
     let pick_label = |rng: &mut Rng| -> u8 {
         match rng.usize(20) {
@@ -820,7 +925,6 @@ fn gen_case(rng: &mut Rng, big: bool) -> Case {
     }
     while ops.len() < n_ops {
         let i = ops.len();
-        let frozen = |created: usize| cp_at.map_or(false, |c| created < c && i >= c);
         let r = rng.usize(100);
         let some_live = |rng: &mut Rng, live: &BTreeMap<u64, Vec<u8>>| -> Option<u64> {
             if live.is_empty() {
@@ -855,15 +959,10 @@ fn gen_case(rng: &mut Rng, big: bool) -> Case {
             ops.push(HOp::Remove { h, key: 1 + rng.usize(2) as u8 });
         } else if r < 73 {
             let h = some_live(rng, &live).unwrap();
-            // a node whose relationships are already frozen is not deleted (detaching would
-            // delete frozen relationships: the tier defect #27 belongs to C06)
-            let touches_frozen = edges.values().any(|(a, b, c)| (*a == h || *b == h) && frozen(*c));
-            if !touches_frozen {
-                live.remove(&h);
-                edges.retain(|_, (a, b, _)| *a != h && *b != h);
-                ops.push(HOp::Delete { h });
-            }
-        } else if r < 79 {
+            live.remove(&h);
+            edges.retain(|_, (a, b, _)| *a != h && *b != h);
+            ops.push(HOp::Delete { h });
+        } else if r < 78 {
             let h = some_live(rng, &live).unwrap();
             let l = 1 + rng.usize(3) as u8;
             let ls = live.get_mut(&h).unwrap();
@@ -871,23 +970,20 @@ fn gen_case(rng: &mut Rng, big: bool) -> Case {
                 ls.push(l);
             }
             ops.push(HOp::AddLabel { h, l });
-        } else if r < 85 {
+        } else if r < 83 {
             let h = some_live(rng, &live).unwrap();
             let l = 1 + rng.usize(3) as u8;
             live.get_mut(&h).unwrap().retain(|x| *x != l);
             ops.push(HOp::RemoveLabel { h, l });
-        } else if r < 95 {
-            let a = some_live(rng, &live).unwrap();
-            let b = some_live(rng, &live).unwrap();
+        } else if r < 94 {
+            let (a, b) = pick_pair(rng, &live, &edges);
             ops.push(HOp::CreateEdge { e: next_e, src: a, dst: b, ty: 1 + rng.usize(2) as u8 });
             edges.insert(next_e, (a, b, i));
             next_e += 1;
         } else if !edges.is_empty() {
             let e = *edges.keys().nth(rng.usize(edges.len())).unwrap();
-            if !frozen(edges[&e].2) {
-                edges.remove(&e);
-                ops.push(HOp::DeleteEdge { e });
-            }
+            edges.remove(&e);
+            ops.push(HOp::DeleteEdge { e });
         }
     }
     // queries
@@ -916,7 +1012,11 @@ fn gen_case(rng: &mut Rng, big: bool) -> Case {
                 preds.push(Pred::Cmp { key, op: cmp_ops[rng.usize(cmp_ops.len())], v: probe_pool[rng.usize(probe_pool.len())].clone() });
             }
         }
-        let hop = if !big && rng.chance(1, 4) { Some((1 + rng.usize(2) as u8, rng.chance(1, 2), pick_label(rng))) } else { None };
+        let hop = if !big && rng.chance(1, 4) {
+            Some((rng.usize(3) as u8, rng.chance(1, 2), if rng.chance(1, 4) { 0 } else { pick_label(rng) }))
+        } else {
+            None
+        };
         let ret = match rng.usize(4) {
             0 => None,
             1 => Some(1),
@@ -1066,7 +1166,8 @@ fn main() {
     let mut rep = Report::new(
         "C02",
         "random write histories (create/set incl. type changes/remove/delete with id reuse/label add+remove/relationships) x read queries \
-         (single-label MATCH, 0-2 comparison or IN predicates, optional one-hop, RETURN n.k | count | n.h,m.h; plain/flipped/inline/WITH forms), \
+         (single-label MATCH, 0-2 comparison or IN predicates, optional one-hop in either direction, typed or untyped, to a labelled or unlabelled node, RETURN n.k | count | n.h,m.h; plain/flipped/reversed/inline/WITH forms); \
+         a quarter of the cases are relationship-heavy (parallel and multi-type relationships between one pair, self-loops, compaction, then deletes of frozen relationships and DETACH DELETEs interleaved with creates that reuse the freed ids), \
          each replayed into 5 index placements x up to 3 compaction placements and run under 2 planners x 2 parallel-filter settings, in two processes; \
          non-trivial = a live node carries a queried label, some plan has an operator beyond scan/project, and the configurations produced >= 2 plan shapes; \
          distinct = distinct rendered case",
@@ -1100,11 +1201,16 @@ fn main() {
     if args.replay.is_none() {
         // `Rng::new(s)` and `Rng::new(s + 1)` are the same stream one step apart; spread the seeds
         let mut rng = Rng::new(args.seed.wrapping_mul(0xD6E8_FEB8_6659_FD93).rotate_left(23) ^ 0xC02);
-        let (n_rand, n_big) = if args.thorough() { (6000, 24) } else { (560, 4) };
+        let (n_rand, n_edge, n_big) = if args.thorough() { (4500, 1500, 24) } else { (380, 150, 4) };
         for _ in 0..n_rand {
             let mut r = rng.fork();
             cases.push(gen_case(&mut r, false));
         }
+        for _ in 0..n_edge {
+            let mut r = rng.fork();
+            cases.push(gen_edge_case(&mut r));
+        }
+        rep.count_n("edge_heavy_cases", n_edge as u64);
         for _ in 0..n_big {
             let mut r = rng.fork();
             cases.push(gen_case(&mut r, true));
